@@ -14,7 +14,9 @@ from props import c11
 PID = "C12"
 RULE = (
     "cases: a decision matrix with mixed objectives (2..8 alternatives x 1..5 criteria, heavy ties, duplicated rows, forced dominating "
-    "pairs, constant criteria; dyadic eighths or arbitrary doubles, the latter with near-ties between neighbouring doubles) inside the sign domain of the pipeline applied to it, and one or more "
+    "pairs, constant criteria; dyadic eighths or arbitrary doubles, the latter with near-ties between neighbouring doubles; in the dyadic "
+    "family the criteria are all float64 (1/2), ALL int64 (whole numbers 1..40 on positive data, -16..40 otherwise, the decision matrix "
+    "built from an integer numpy array, 1/3) or mixed int64 / float64 through mkdm(dtypes=) (1/6)) inside the sign domain of the pipeline applied to it, and one or more "
     "pipelines: (a) every listed transformer x target matrix/weights/both x parameter setting alone (SumScaler, VectorScaler, MaxAbsScaler, "
     "InvertMinimize on positive data; MinMaxScaler x 8 ranges x clip, StandarScaler x with_mean x with_std, PushNegatives, AddValueToZero "
     "x 7 values, NegateMinimize on any data), (b) random SEQUENCES of 1..5 of them, each step drawn among those whose domain holds at that "
@@ -146,6 +148,30 @@ def matrix(rng, m, n, family, positive, objs):
     return A
 
 
+def draw_dtypes(rng, n):
+    """dtype of each criterion: all float64 / ALL int64 (decision matrix built from an integer numpy array) / mixed int64-float64"""
+    mode = rng.choice(["float", "float", "float", "int", "int", "mixed"])
+    if mode == "int":
+        return ["int"] * n
+    if mode == "mixed" and n >= 2:
+        dt = [rng.choice(["int", "float"]) for _ in range(n)]
+        i, k = rng.sample(range(n), 2)
+        dt[i], dt[k] = "int", "float"
+        return dt
+    return ["float"] * n
+
+
+def whole(A, dtypes, positive):
+    """the cells of the integer-typed criteria become whole numbers: eighths x 8 (an order-preserving map of the column, so ties,
+    duplicated rows and forced dominating pairs stay what they were); anything else is rounded up, positive data stays >= 1"""
+    for row in A:
+        for j, t in enumerate(dtypes):
+            if t == "int":
+                v = float(math.ceil(row[j] * 8))
+                row[j] = max(v, 1.0) if positive else v
+    return A
+
+
 def base_dm(rng, positive, wpositive=True):
     m, n = rng.randint(2, 8), rng.randint(1, 5)
     family = rng.choice(["dyadic", "dyadic", "float"])
@@ -154,8 +180,12 @@ def base_dm(rng, positive, wpositive=True):
         w = G.weights(rng, n, family)
     else:
         w = c11.vec(rng, n, family, rng.choice(["mixed", "zero", "minzero"]))
-    return {"matrix": matrix(rng, m, n, family, positive, objs), "objectives": objs, "weights": w,
-            "alternatives": G.labels(rng, G.LABEL_POOL_ALT, m), "criteria": G.labels(rng, G.LABEL_POOL_CRIT, n), "family": family}
+    A = matrix(rng, m, n, family, positive, objs)
+    # integer-typed criteria live in the exactly representable family only (whole numbers are exact)
+    dtypes = draw_dtypes(rng, n) if family == "dyadic" else ["float"] * n
+    return {"matrix": whole(A, dtypes, positive), "objectives": objs, "weights": w,
+            "alternatives": G.labels(rng, G.LABEL_POOL_ALT, m), "criteria": G.labels(rng, G.LABEL_POOL_CRIT, n), "family": family,
+            "dtypes": dtypes}
 
 
 def single_case(rng, cfg):
@@ -257,7 +287,7 @@ def _tables(dm):
 
 def observe(case):
     with M.quiet():
-        dm = G.mkdm(case["dm"])
+        dm = c11.mkdm(case["dm"])
         out = {"before": _tables(dm), "runs": []}
         for pipe in case["pipelines"]:
             try:
@@ -395,6 +425,8 @@ def nontrivial(case, obs):
 def tags(case, obs):
     dm = case["dm"]
     t = ["kind:" + case["kind"], "family:" + dm["family"]]
+    dt = dm.get("dtypes") or ["float"]
+    t.append("dtypes:" + ("int" if all(x == "int" for x in dt) else "float" if all(x == "float" for x in dt) else "mixed"))
     o = dm["objectives"]
     t.append("objs:" + ("max" if all(x == 1 for x in o) else "min" if all(x == -1 for x in o) else "mixed"))
     if case["kind"] != "exh":
